@@ -278,12 +278,12 @@ pub fn check(mut ctx: Ctx, replay: Option<J>) -> ! {
     let spec = ctx.verif.join("spec");
     let out = ctx.verif.join("work/C17/apalache");
     let (base, t0) = crate::tlc::apalache(&spec, &out, "Apa_Workspace", &["--cinit=ConstInit", "--init=Init", "--inv=IndInv", "--length=0"], 600);
-    let (step, t1) = if base == Some(true) { crate::tlc::apalache(&spec, &out, "Apa_Workspace", &["--cinit=ConstInit", "--init=IndInit", "--inv=IndInv", "--length=1"], 900) } else { (None, String::new()) };
+    let (step, t1) = if base == Some(true) { crate::tlc::apalache(&spec, &out, "Apa_Workspace", &["--cinit=ConstInit", "--init=IndInit", "--next=NextL", "--inv=IndInv", "--length=1"], 900) } else { (None, String::new()) };
     if base == Some(false) || step == Some(false) {
       tool_error(&format!("Apalache found the invariants of Workspace not inductive: {}", if base == Some(false) { t0 } else { t1 }.lines().rev().take(12).collect::<Vec<_>>().join(" | ")));
     }
     if base == Some(true) && step == Some(true) {
-      ctx.cov("apalache_inductive_invariant", json!("Inv and AddableIff are inductive for every alphabet of models over 3 identifiers x 3 namespaces x 3 names x builds/fails (Init => IndInv; IndInv and Next => IndInv')"));
+      ctx.cov("apalache_inductive_invariant", json!("Inv and AddableIff are inductive for every alphabet of models over 3 identifiers x 3 namespaces x 3 names x builds/fails (Init => IndInv; IndInv and NextL => IndInv', NextL = the operations and a restart on a directory)"));
     } else {
       ctx.cov("apalache_inductive_invariant", json!(format!("not established in this run: {} {}", t0.chars().take(200).collect::<String>(), t1.chars().take(200).collect::<String>())));
     }
